@@ -140,6 +140,14 @@ ResolveVerdict(e) ==
   ELSE IF e.exit = 0 /\ InList(e.new, e.all) THEN <<"resolve:new-version-equals-existing-tag", e.new>>
   ELSE Good
 
+\* `bumpver grep PATTERN file`: which lines it reports as matching (C07 end to end)   e.lines : the file's lines   e.reported : 1-based numbers of the matched lines
+GrepVerdict(e) ==
+  LET want == {i \in 1..Len(e.lines) : LET m == Search(Compile(e.P), e.lines[i]) IN m.ok /\ m.end > m.start}
+      got == {e.reported[q] : q \in 1..Len(e.reported)} IN
+  IF got = want THEN Good
+  ELSE IF got \ want # {} THEN <<"grep:reports-a-line-without-the-text", got \ want>>
+  ELSE <<"grep:misses-a-line-with-the-text", want \ got>>
+
 CalVerdict(e) ==
   LET c == CalInfo(e.n) bad == {f \in CalFieldSet : c[f] # e.c[f]} IN
   IF bad = {} THEN Good ELSE <<"calinfo", [f \in bad |-> <<c[f], e.c[f]>>]>>
@@ -167,6 +175,7 @@ Verdict(e) ==
     [] e.ev = "gate"    -> GateVerdict(e)
     [] e.ev = "pep"     -> PepVerdict(e)
     [] e.ev = "search"  -> SearchVerdict(e)
+    [] e.ev = "grep"    -> GrepVerdict(e)
     [] e.ev = "resolve" -> ResolveVerdict(e)
     [] e.ev = "calinfo" -> CalVerdict(e)
     [] e.ev = "weekpat" -> WeekPatVerdict(e)
